@@ -123,7 +123,7 @@ def build(only_proofs_ok=False):
         rc, o, e = sh(["make", "-j%d" % NCPU, "-k"], cwd=COQ, timeout=3000)
         notes["t_coq"] = round(time.time() - t1, 1)
         notes["coq_ok"] = (rc == 0)
-        notes["coq_log"] = (o + e)[-6000:] if rc != 0 else ""
+        notes["coq_log"] = ("\n".join(l for l in (o + e).splitlines() if not l.startswith(("COQC", "COQDEP", "CLEAN")))[:6000]) if rc != 0 else ""
         # 3. extraction + OCaml model (needs only the model .vo files)
         t2 = time.time()
         ex = os.path.join(BUILD, "extract")
@@ -490,6 +490,9 @@ def main():
         # make run; a failure there that touches this property shows up as a Props failure
         for f in pfail:
             broken.append("proof obligation: " + f)
+        if pfail and notes.get("coq_log"):
+            # the first error of the full build usually names the lemma that no longer holds
+            broken.append("make -C coq (first failure): " + notes["coq_log"][:2500])
         if tier == "thorough" and not replay and os.environ.get("VERIF_NO_COQCHK") is None:
             chk, okc = run_coqchk(prop)
             ev_cov["coqchk"] = chk[-2500:]
